@@ -55,7 +55,7 @@ class KeyModel(FindModel):
         fn = n.get("fn") or ""
         args = n["args"]
         last = fn.split("::")[-1]
-        A_ = lambda i: self.ev(args[i], env)
+        A_ = lambda i: self.arg(n, i, env)
         if fn.endswith("Tokeniser::tokenise"):
             return ("ok", ("vec", [t for t in self.tokens]))
         if last == "join" and len(args) == 2:
@@ -193,7 +193,7 @@ class SeqModel(KeyModel):
         fn = n.get("fn") or ""
         args = n["args"]
         last = fn.split("::")[-1]
-        A_ = lambda i: self.ev(args[i], env)
+        A_ = lambda i: self.arg(n, i, env)
         if fn.startswith("error::") or "::error::" in fn:
             return ("error",)
         if fn.endswith("parser::parse_mapping") and len(args) == 1:
